@@ -674,3 +674,45 @@ def rule_argument_not_overridden(ctx, rep, rid: str, where: Callable[[Func], boo
                     rep.bad(rid, key, f"{f.qual} replaces `{v}` (converted from the script argument at line {a0.lineno}) by {norm(a.value)} under `{norm(g[0][0])[:60]}`, a condition that does not look at the value the caller passed: an explicit argument is silently ignored on that path", f"{f.module.rel}:{a.lineno}")
     if n < floor:
         raise AnalysisError(f"{rid}: {n} conditional override(s) of argument locals found, floor {floor}")
+
+
+# ---- an integer argument that limits or positions the result is looked at on every way out -----------------
+def rule_integer_argument_consulted(ctx, rep, rid: str, where: Callable[[Func], bool], what: str, floor: int = 10) -> None:
+    """ECMAScript converts and applies a position / count / limit argument before it looks at anything that could
+    make the answer trivial.  A native that converts such an argument into a local and uses it on some paths has to
+    use it on all: a branch that returns without ever reading it (the `separator is undefined` branch of split that
+    forgets the limit) answers as if the argument had not been passed."""
+    rep.rule(rid, f"in {what}, a local holding an integer converted from a script argument (to_integer) is read on every path from its conversion to a normal return, directly or by a local helper it is handed to: no branch answers as if the argument had not been given", floor=floor)
+    n = 0
+    for f in ctx.tree.funcs:
+        if isinstance(f.node, ast.Lambda) or not where(f):
+            continue
+        vararg = f.node.args.vararg.arg if f.node.args.vararg else None
+        if vararg is None:
+            continue
+        defs = {}
+        for a in f.own_nodes():
+            if isinstance(a, ast.Assign) and len(a.targets) == 1 and isinstance(a.targets[0], ast.Name) and a.targets[0].id not in defs:
+                if any(isinstance(x, ast.Call) and isinstance(x.func, ast.Name) and x.func.id == "to_integer" for x in ast.walk(a.value)) and _subscripts(a.value, vararg):
+                    defs[a.targets[0].id] = a
+        if not defs:
+            continue
+        cfg = ctx.facts.cfg(f)
+        for v, a0 in defs.items():
+            reads = {nd.id for nd in cfg.nodes if nd.ast is not None and not any(x is a0 for x in ast.walk(nd.ast)) and any(isinstance(x, ast.Name) and x.id == v and isinstance(x.ctx, ast.Load) for x in ast.walk(nd.ast))}
+            if not reads:
+                continue  # never used at all: a different matter (dead conversion)
+            n += 1
+            key = f"{f.qual}:{v}"
+            start = [nd for nd in cfg.nodes if nd.ast is not None and any(x is a0 for x in ast.walk(nd.ast))]
+            bad = None
+            for s in start:
+                p = cfg.path_avoiding(s.id, lambda nd: nd.id == cfg.exit.id, reads, None, start_succ=True)
+                if p is not None and not any(x.kind == "raise" for x in p):
+                    bad = p
+            if bad is None:
+                rep.ok(rid, key)
+            else:
+                rep.bad(rid, key, f"{f.qual} converts a script argument into `{v}` (line {a0.lineno}) and returns through lines {[x.line for x in bad if x.line][-6:]} without ever reading it, while its other paths apply it: on that branch the call answers as if the argument had not been passed ('a,b'.split(undefined, 0) must be [] like every other split with limit 0)", f"{f.module.rel}:{a0.lineno}")
+    if n < floor:
+        raise AnalysisError(f"{rid}: only {n} integer argument locals examined (floor {floor})")
